@@ -26,6 +26,7 @@ pub enum Shape {
     NegativeTimes,
     Mixed,
     Ties,        // equal start times / equal timing sections
+    Buzz,        // small circles alternating between two x positions, the distance swept in steps
 }
 
 pub const SHAPES: &[Shape] = &[
@@ -40,6 +41,7 @@ pub const SHAPES: &[Shape] = &[
     Shape::Sparse,
     Shape::NegativeTimes,
     Shape::Mixed,
+    Shape::Buzz,
     Shape::Mixed,
     Shape::Mixed,
     Shape::Ties,
@@ -58,6 +60,7 @@ fn shape_name(s: Shape) -> &'static str {
         Shape::NegativeTimes => "negative_times",
         Shape::Mixed => "mixed",
         Shape::Ties => "ties",
+        Shape::Buzz => "buzz",
     }
 }
 
@@ -105,6 +108,8 @@ pub fn gen_map(rng: &mut Rng, opts: &GenOpts) -> GenMap {
     let keys = if mode == 3 { 1 + rng.below(10) as u32 } else { 0 };
     let cs = if mode == 3 {
         f64::from(keys)
+    } else if matches!(shape, Shape::Buzz) {
+        one_decimal(rng, 5.6, 10.0)
     } else {
         one_decimal(rng, 0.0, 10.0)
     };
@@ -137,6 +142,7 @@ pub fn gen_map(rng: &mut Rng, opts: &GenOpts) -> GenMap {
         _ => rng.below(3000) as f64,
     };
     let base_gap = match shape {
+        Shape::Buzz => 120 + rng.below(160),
         Shape::Dense => 20 + rng.below(60),
         Shape::Stacked => 80 + rng.below(200),
         _ => 100 + rng.below(500),
@@ -159,6 +165,7 @@ pub fn gen_map(rng: &mut Rng, opts: &GenOpts) -> GenMap {
             // beyond 4096 strain sections (27 min) now and then
             Shape::Sparse if rng.chance(1, 12) => 1_700_000.0 + rng.below(2_500_000) as f64,
             Shape::Sparse if rng.chance(1, 3) => 30_000.0 + rng.below(1_170_000) as f64,
+            Shape::Buzz => base_gap,
             Shape::Ties if rng.chance(1, 3) => 0.0,
             Shape::Mixed if rng.chance(1, 15) => 5_000.0 + rng.below(60_000) as f64,
             _ => base_gap * *rng.pick(&[0.25, 0.5, 0.5, 1.0, 1.0, 1.0, 2.0, 4.0]),
@@ -172,6 +179,11 @@ pub fn gen_map(rng: &mut Rng, opts: &GenOpts) -> GenMap {
         }
 
         let (x, y) = match shape {
+            Shape::Buzz => {
+                // distance swept from 30 to 92 px in steps of 2, six objects per step
+                let dx = 30 + (stacked_pos.1 % 45) + ((i / 5) * 3 % 64) as i32;
+                (stacked_pos.0.min(400) + if i % 2 == 0 { 0 } else { dx }, stacked_pos.1)
+            }
             Shape::Stacked if rng.chance(3, 4) => stacked_pos,
             _ => (rng.below(513) as i32, rng.below(385) as i32),
         };
@@ -184,6 +196,7 @@ pub fn gen_map(rng: &mut Rng, opts: &GenOpts) -> GenMap {
         };
 
         let kind = match shape {
+            Shape::Buzz => 0,
             Shape::AllSpinners => 2,
             Shape::SpinnerFirst if i == 0 => 2,
             Shape::SliderFirst if i == 0 => 1,
